@@ -430,7 +430,7 @@ def _add_top(rng, grid, arr, frac=0.3):
   """Put random content into the (normally clipped) top total wavenumber."""
   arr = np.array(arr)
   Lm1 = grid.total_wavenumbers - 1
-  mask = np.asarray(grid.mask)[:, Lm1]
+  mask = gen.independent_mask(grid)[:, Lm1]
   nz = arr[arr != 0]
   amp = frac * (float(np.sqrt(np.mean(nz ** 2))) if nz.size else 1.0)
   arr[..., :, Lm1] = rng.standard_normal(arr.shape[:-1]) * mask * amp
